@@ -79,7 +79,8 @@ func c17Files(run *vx.Run) []c17File {
 	rng := rand.New(rand.NewSource(run.Seed))
 	var fs []c17File
 	add := func(name string, img image.Image, o *webp.EncoderOptions) {
-		fs = append(fs, c17File{name, mustEncode(img, o)})
+		oo := withDefaults(*o) // loop filter, SNS, segments as a default encode has them
+		fs = append(fs, c17File{name, mustEncode(img, &oo)})
 	}
 	sz := func() (int, int) { return 17 + rng.Intn(30), 17 + rng.Intn(24) }
 	for p := 0; p <= 3; p++ {
